@@ -180,6 +180,13 @@ def check(prop, tier):
     run_harness("sess", ["random", s + 7919, nrand // 2, 40, drops, 1, rnd_cases2], part)
     os.system(f"cat {part} >> {trace}")
     allcases.update(load_cases(rnd_cases2))
+    # long sessions: up to 70 requests on one session, dozens of abandoned reply futures (C18) / dozens of replies
+    # in odd orders (C05) over its lifetime; more than the model has room for, judged by the contract alone
+    nlong = 60 if thorough else 8
+    long_cases = os.path.join(wd, "long.cases")
+    run_harness("sess", ["random", s + 104729, nlong, 900, 0 if prop == "C05" else 60, 0, long_cases, 70], part)
+    os.system(f"cat {part} >> {trace}")
+    allcases.update(load_cases(long_cases))
     nstress = 0
     if prop == "C05":
         nstress = 5000 if thorough else 400
@@ -210,7 +217,7 @@ def check(prop, tier):
                       "wall_s": r["wall_s"]} for r in tlc_runs],
         "walks_from_tlc_edge_cover": walks_total,
         "model_edges": [s for _, s in walksets],
-        "random_cases": nrand, "stress_cases_multithreaded": nstress,
+        "random_cases": nrand, "stress_cases_multithreaded": nstress, "long_session_cases(70 requests, up to 60 drops)": nlong,
         "trace_lines": stats.get("lines"), "polls_of_real_futures": stats.get("polls"),
         "results_checked": stats.get("results"),
         "cases_drifted_from_model": stats.get("drifted", 0), "first_drift": stats.get("firstDrift", ""),
